@@ -289,6 +289,9 @@ func (w *Walker) walkSelection(parentDef *ast.Definition, it ast.Selection) {
 		if def != nil && !w.validatedFragmentSpreads[def.Name] {
 			// prevent infinite recursion
 			w.validatedFragmentSpreads[def.Name] = true
+			// the directives of the fragment definition may use the variables of the
+			// operation that spreads the fragment, like everything inside it
+			w.walkDirectives(nextParentDef, def.Directives, ast.LocationFragmentDefinition)
 			w.walkSelectionSet(nextParentDef, def.SelectionSet)
 		}
 
